@@ -111,7 +111,7 @@ func compareCallLogs(direct, decoded []world.Op) (diff string, coordInexact, reg
 				regInexact = true
 				continue
 			}
-			tol := math.Max(1.0/128, math.Abs(x)/(1<<21))
+			tol := math.Max(1.0/128+1.0/2048, math.Abs(x)/(1<<20))
 			if !(math.Abs(x-y) <= tol) {
 				return fmt.Sprintf("call #%d %s: number %g decoded as %g (beyond coordinate quantisation)", i, a.K, x, y), false, false
 			}
@@ -214,6 +214,17 @@ func compareRaster(a, b []world.RastOp, mode int, regsExact bool, vb ivg.ViewBox
 			switch mode {
 			case 0:
 				return fmt.Sprintf("rasteriser call #%d: %s directly, %s via bytes (every coordinate was carried exactly, so they must be bit-equal)", i, x.String(), y.String())
+			case 1:
+				// numbers were carried within the format's quantisation; programs
+				// with off-lattice numbers use absolute verbs (plus at most a couple
+				// of relative steps), so a few quanta bound the difference
+				u, v := float64(x.F[j]), float64(y.F[j])
+				if math.IsNaN(u) && math.IsNaN(v) {
+					continue
+				}
+				if !(math.Abs(u-v) <= 6*quantum+math.Max(math.Abs(u), math.Abs(v))/(1<<17)) {
+					return fmt.Sprintf("rasteriser call #%d: %s directly, %s via bytes (numbers reached the far end within quantisation, yet the rasteriser coordinates differ by more than a few quanta)", i, x.String(), y.String())
+				}
 			case 2:
 				u, v := float64(x.F[j]), float64(y.F[j])
 				if math.IsNaN(u) && math.IsNaN(v) {
@@ -243,7 +254,14 @@ func c07Run(ctx *Ctx, t *tape.Tape) *report.Violation {
 		reuseEnc:    t.Chance(1, 4),
 		altLogStyle: t.Bool(),
 	}
-	prog := world.GenProgram(t, world.GenCfg{MaxItems: 10, Abstract: true, EncOnly: true, Observers: true, ForceReset: true, LongRuns: 3})
+	// one program in five carries coordinates off the lattice (edges of the
+	// number forms, ties, full-mantissa floats): the codec must round them, and
+	// the comparison allows exactly the format's quantisation
+	gcfg := world.GenCfg{MaxItems: 10, Abstract: true, EncOnly: true, Observers: true, ForceReset: true, LongRuns: 3}
+	if t.Chance(1, 5) {
+		gcfg.OffLattice, gcfg.LongRuns = true, 0
+	}
+	prog := world.GenProgram(t, gcfg)
 	// the cut check decodes the whole prefix at every styling-mode boundary:
 	// bound the number of cuts (not the length of paths, inside which there is
 	// at most one cut)
@@ -395,6 +413,9 @@ func c07Run(ctx *Ctx, t *tape.Tape) *report.Violation {
 		if coordInexact {
 			st.Add("codec_inexact_coordinates", 1)
 		}
+		if gcfg.OffLattice {
+			st.Add("off_lattice_programs", 1)
+		}
 		if regInexact {
 			st.Add("runs_with_rounded_register_values", 1)
 		}
@@ -454,8 +475,9 @@ func init() {
 					"stream_cuts_decoded":   s.Counters["stream_cuts_decoded"],
 					"raster_calls_compared": s.Counters["raster_calls_compared"],
 					"runs_with_rounded_register_values_(helper-computed gradient matrix; transform compared with 1e-5 tolerance)": s.Counters["runs_with_rounded_register_values"],
-					"runs_with_inexact_coordinates_(codec; structural comparison only)":                                           s.Counters["codec_inexact_coordinates"],
-					"runs_where_call_logs_differ_structurally_but_rendering_agrees":                                               s.Counters["runs_where_call_logs_differ_but_rendering_agrees"],
+					"off_lattice_programs": s.Counters["off_lattice_programs"],
+					"runs_with_inexact_coordinates_(carried within the format's quantisation; rasteriser coordinates compared within a few quanta)": s.Counters["codec_inexact_coordinates"],
+					"runs_where_call_logs_differ_structurally_but_rendering_agrees":                                                                 s.Counters["runs_where_call_logs_differ_but_rendering_agrees"],
 					"topologies": map[string]int64{"with a DestinationLogger": s.Counters["topology_with_logger"], "Encoder reused": s.Counters["topology_encoder_reused"]},
 					"reach_probes": map[string]int64{
 						"incrementing write followed by read-back/helper": s.Counters["probe_incr_write_then_readback_or_helper"],
